@@ -3,7 +3,7 @@
 
    Abstraction level.  encoding/gob is not modelled byte-wise.  A stream is a
    sequence of TOKENS, one per gob Encode/Decode call made by codec.go:
-       batch = TLen n ; per column (TFlag codec ; TCol data | TVal v * n) ; TCrc c
+       batch = TLen n ; per column (TFlag codec ; TCol data | TVal v * n | TBulk data) ; TCrc c
    and the token <-> byte codec is a parameter of the model (Section variables
    [enc_tok]/[dec_tok]) with a state [St] (gob's registry of the types already
    described on this stream: the first use of a type emits extra messages).
@@ -33,15 +33,21 @@ Notation cell := (list Z) (only parsing).
 Notation col := (list (list Z)) (only parsing).
 Notation frame := (list (list (list Z))) (only parsing).
 
-(* column kinds: HasCodec(col) = (kind = KCodec); gob decodes a struct field by
+(* column kinds: HasCodec(col) = has_codec kind; gob decodes a struct field by
    field and leaves a field that was omitted on the wire (zero value) untouched *)
-Inductive kind := KGob | KStruct | KCodec.
+Inductive kind :=
+| KGob | KStruct
+| KCodec        (* custom codec, one Encode per row, with session state (the harness' vint) *)
+| KCodecBulk.   (* custom codec, one Encode of the whole slice; Decode copies what it got (the harness' vtag):
+                   copy(slice[i:j], p) checks no length *)
+Definition has_codec (k : kind) : bool := match k with KCodec | KCodecBulk => true | _ => false end.
 
 Inductive token :=
 | TLen (n : Z)              (* enc.Encode(f.Len())            : int *)
 | TFlag (b : bool)          (* enc.Encode(codec)              : bool *)
 | TCol (data : list (list Z)) (* enc.EncodeValue(f.Value(col))  : []T through gob *)
 | TVal (v : list Z)         (* one e.Encode(x) made by a custom column codec *)
+| TBulk (data : list (list Z)) (* one e.Encode(slice[i:j]) made by a custom column codec *)
 | TCrc (c : N).             (* enc.Encode(crc.Sum32())        : uint32 *)
 
 Inductive dres (St : Type) :=
@@ -108,6 +114,14 @@ Fixpoint gob_into (k : kind) (view data : list (list Z)) : list (list Z) :=
   | [], _ => []
   end.
 
+(* Go's copy(dst, src): the first min(len dst, len src) elements *)
+Fixpoint copy_into (view data : list (list Z)) : list (list Z) :=
+  match view, data with
+  | _ :: vs, d :: ds => d :: copy_into vs ds
+  | vs, [] => vs
+  | [], _ => []
+  end.
+
 Section Codec.
 Variable St : Type.                                         (* gob stream state *)
 Variable enc_tok : St -> token -> list N * St.              (* bytes of one token *)
@@ -149,6 +163,7 @@ Fixpoint vals_sess (s : Sess) (vals : list (list Z)) : Sess :=
 Definition col_toks (s : Sess) (k : kind) (cl : list (list Z)) : list token :=
   match k with
   | KCodec => TFlag true :: vals_toks s cl
+  | KCodecBulk => [TFlag true; TBulk cl]
   | _ => [TFlag false; TCol cl]
   end.
 Definition col_sess (s : Sess) (k : kind) (cl : list (list Z)) : Sess :=
@@ -246,6 +261,12 @@ Definition dec_col (r : rstate) (k : kind) (view : list (list Z)) : dcres :=
       if codec then
         match k with
         | KCodec => dec_vals r1 view                      (* f.Decode(col, d.dec) *)
+        | KCodecBulk =>                                   (* f.Decode(col, d.dec): d.Decode(&p); copy(slice[i:j], p) *)
+            match rd_tok r1 with
+            | TokOk (TBulk data) r2 => DcOk (copy_into view data) r2
+            | TokOk _ _ => DcErr EMalformed
+            | t => DcErr (raw_err t)
+            end
         | _ => DcErr ENoCodec                             (* codec && !f.HasCodec(col) *)
         end
       else
